@@ -145,23 +145,52 @@ theorem read_line_eof (w : World) (h : w.stdin = []) : (w.readLine).1 = [] := by
 /-- every file-system failure reaches the program as an error of the built-in, never a panic: the
     wrappers return `.inr` exactly when the tree operation fails -/
 theorem fs_fault_is_err (s : St) (p c : Str) :
-    (s.world.readFile p = none → ∃ t, callB .readFile [.str p] s = .inr t) ∧
-    (s.world.writeFile p c = none → ∃ t, callB .writeFile [.str p, .str c] s = .inr t) ∧
-    (s.world.deleteFile p = none → ∃ t, callB .deleteFile [.str p] s = .inr t) ∧
-    (s.world.createDirAll p = none → ∃ t, callB .createDir [.str p] s = .inr t) ∧
-    (s.world.readDir p = none → ∃ t, callB .readDir [.str p] s = .inr t) ∧
-    (s.world.deleteDirAll p = none → ∃ t, callB .deleteDir [.str p] s = .inr t) ∧
-    (s.world.fileOrDir p = none → ∃ t, callB .fileOrDir [.str p] s = .inr t) := by
+    (s.world.readFileP p = none → ∃ t, callB .readFile [.str p] s = .inr t) ∧
+    (s.world.writeFileP p c = none → ∃ t, callB .writeFile [.str p, .str c] s = .inr t) ∧
+    (s.world.deleteFileP p = none → ∃ t, callB .deleteFile [.str p] s = .inr t) ∧
+    (s.world.createDirAllP p = none → ∃ t, callB .createDir [.str p] s = .inr t) ∧
+    (s.world.readDirP p = none → ∃ t, callB .readDir [.str p] s = .inr t) ∧
+    (s.world.deleteDirAllP p = none → ∃ t, callB .deleteDir [.str p] s = .inr t) ∧
+    (s.world.fileOrDirP p = none → ∃ t, callB .fileOrDir [.str p] s = .inr t) := by
   refine ⟨?_, ?_, ?_, ?_, ?_, ?_, ?_⟩ <;> intro h <;> simp [callB, h]
 
 /-- and succeed with the documented result otherwise -/
 theorem fs_success (s : St) (p c : Str) :
-    (∀ t, s.world.readFile p = some t → callB .readFile [.str p] s = .inl (.str t, s)) ∧
-    (∀ w', s.world.writeFile p c = some w' → callB .writeFile [.str p, .str c] s = .inl (.bool true, { s with world := w' })) ∧
-    (∀ w', s.world.deleteFile p = some w' → callB .deleteFile [.str p] s = .inl (.bool true, { s with world := w' })) ∧
-    (∀ w', s.world.createDirAll p = some w' → callB .createDir [.str p] s = .inl (.bool true, { s with world := w' })) ∧
-    (∀ w', s.world.deleteDirAll p = some w' → callB .deleteDir [.str p] s = .inl (.bool true, { s with world := w' })) := by
+    (∀ t, s.world.readFileP p = some t → callB .readFile [.str p] s = .inl (.str t, s)) ∧
+    (∀ w', s.world.writeFileP p c = some w' → callB .writeFile [.str p, .str c] s = .inl (.bool true, { s with world := w' })) ∧
+    (∀ w', s.world.deleteFileP p = some w' → callB .deleteFile [.str p] s = .inl (.bool true, { s with world := w' })) ∧
+    (∀ w', s.world.createDirAllP p = some w' → callB .createDir [.str p] s = .inl (.bool true, { s with world := w' })) ∧
+    (∀ w', s.world.deleteDirAllP p = some w' → callB .deleteDir [.str p] s = .inl (.bool true, { s with world := w' })) := by
   refine ⟨?_, ?_, ?_, ?_, ?_⟩ <;> intro x h <;> simp [callB, h]
+
+/-! ### Path texts: the kernel's walk decides, not the text -/
+
+/-- a path text whose walk fails makes every reading, writing and deleting built-in fail -/
+theorem unresolvable_path_fails (w : World) (p c : Str) (h : w.resolve p = none) :
+    w.readFileP p = none ∧ w.writeFileP p c = none ∧ w.deleteFileP p = none ∧ w.readDirP p = none ∧
+    w.deleteDirAllP p = none ∧ w.fileOrDirP p = none := by
+  simp [World.readFileP, World.writeFileP, World.deleteFileP, World.readDirP, World.deleteDirAllP, World.fileOrDirP, h]
+
+/-- and a path text that resolves behaves exactly like the clean path it denotes -/
+theorem resolvable_path_is_its_target (w : World) (p q c : Str) (h : w.resolve p = some q) :
+    w.readFileP p = w.readFile q ∧ w.writeFileP p c = w.writeFile q c ∧ w.deleteFileP p = w.deleteFile q ∧
+    w.readDirP p = w.readDir q ∧ w.deleteDirAllP p = w.deleteDirAll q ∧ w.fileOrDirP p = w.fileOrDir q := by
+  simp [World.readFileP, World.writeFileP, World.deleteFileP, World.readDirP, World.deleteDirAllP, World.fileOrDirP, h]
+
+/-- `x/..` is no detour when `x` is not an existing directory: the walk fails (`missing/../f`, `file.txt/../f`) -/
+theorem detour_through_non_directory_fails (w : World) (cur : List Str) (c : Str) (rest : List Str)
+    (hc : c ≠ ['.', '.']) (hr : rest ≠ []) (hnd : w.isDir (World.pathOfComps (cur ++ [c])) = false) :
+    World.resolveComps w (c :: rest) cur = none := by
+  have h1 : (c == ['.', '.']) = false := by simpa using hc
+  have h2 : rest.isEmpty = false := by cases rest <;> simp_all
+  simp [World.resolveComps, h1, h2, hnd]
+
+/-- through an existing directory `x/..` comes back to where it started -/
+theorem detour_through_directory (w : World) (cur : List Str) (c : Str) (rest : List Str)
+    (hc : c ≠ ['.', '.']) (hd : w.isDir (World.pathOfComps (cur ++ [c])) = true) :
+    World.resolveComps w (c :: ['.', '.'] :: rest) cur = World.resolveComps w rest cur := by
+  have h1 : (c == ['.', '.']) = false := by simpa using hc
+  simp [World.resolveComps, h1, hd]
 
 example : World.trimEnd "ab \t\r".toList = ['a', 'b'] := by decide
 
